@@ -68,23 +68,31 @@ impl<T: Config> InputQueue<T> {
         self.first_incorrect_frame
     }
 
-    /// Changes the frame delay and returns any fill inputs that were implicitly added to bridge the
-    /// gap. The caller is responsible for sending these to remote peers so they see consecutive
-    /// frame numbers.
+    /// Changes the frame delay and returns any fill inputs that were added to bridge the gap. The
+    /// caller is responsible for sending these to remote peers so they see consecutive frame
+    /// numbers.
+    ///
+    /// With the new delay the next user frame `last_user_frame + 1` lands on queue frame
+    /// `last_user_frame + 1 + delay`, so every frame up to `last_user_frame + delay` that is not in
+    /// the queue yet is filled with the most recent input right away. Computing the fills from the
+    /// frames actually missing (rather than from the difference of the two delay values) keeps
+    /// repeated changes between two inputs consistent with what ends up in the queue.
     pub(crate) fn set_frame_delay(&mut self, delay: usize) -> Vec<PlayerInput<T::Input>> {
-        let old_delay = self.frame_delay;
         self.frame_delay = delay;
 
-        if delay <= old_delay || self.last_added_frame == NULL_FRAME {
+        if self.last_added_frame == NULL_FRAME || self.last_user_frame == NULL_FRAME {
             return Vec::new();
         }
 
-        let fill_count = delay - old_delay;
-        let fill_start = self.last_added_frame + 1;
+        let last_fill_frame = self.last_user_frame + delay as i32;
         let last_input = self.inputs[Self::prev_pos(self.head)];
-        (0..fill_count as i32)
-            .map(|i| PlayerInput::new(fill_start + i, last_input.input))
-            .collect()
+        let mut fills = Vec::new();
+        while self.last_added_frame < last_fill_frame {
+            let fill_frame = self.last_added_frame + 1;
+            self.add_input_by_frame(last_input, fill_frame);
+            fills.push(PlayerInput::new(fill_frame, last_input.input));
+        }
+        fills
     }
 
     pub(crate) fn reset_prediction(&mut self) {
